@@ -161,9 +161,11 @@ def lutGet {α : Type} (o : Ops α) (c : Cfg α) (t : OutT) (sample : Nat) : Opt
 
 /-! ## `convert_pixel_slice`: which table is built for an image -/
 
-/-- bits stored handed to the `Lut` constructors: the 8-bit arm passes the constant 8, the 16-bit
-arm passes `self.bits_stored` -/
-def lutBitsFor (bitsAllocated bitsStored : Nat) : Nat := if bitsAllocated = 8 then 8 else bitsStored
+/-- bits stored handed to the `Lut` constructors: `self.bits_stored`, in the 8-bit arm clamped to
+1..=8 (finding `bits-stored-ignored-8bit`, repaired: the arm used to pass the constant 8) -/
+def lutBitsFor (bitsAllocated bitsStored : Nat) : Nat :=
+  if bitsAllocated = 8 then (if bitsStored < 1 then 1 else if 8 < bitsStored then 8 else bitsStored)
+  else bitsStored
 
 /-- the stored value as the property reads it: the low `bitsStored` bits of the sample,
 two's complement when `signed` -/
